@@ -253,6 +253,17 @@ func (n *Node) Eval(r *Row) TV {
 	case "LIKE":
 		return b2t(Like(v.(string), n.Val.(string)))
 	case "IN":
+		// an empty list is written as (NULL): x IN (NULL) is unknown for every x, and so is its negation
+		switch xs := n.Val.(type) {
+		case []int64:
+			if len(xs) == 0 {
+				return U
+			}
+		case []string:
+			if len(xs) == 0 {
+				return U
+			}
+		}
 		switch xs := n.Val.(type) {
 		case []int64:
 			for _, x := range xs {
